@@ -67,6 +67,7 @@ inductive Stmt where
   | pass
   | decl (x : Nat) (e : Expr)            -- `x: T = e`, T = the declared type of local x
   | assign (x : Nat) (e : Expr)          -- `x = e`
+  | infer (x : Nat) (e : Expr)           -- the first, un-annotated `x = e`: defines x with the type of e
   | setAttr (o : Expr) (f : Nat) (e : Expr)
   | expr (e : Expr)
   | ret (e : Expr)
@@ -390,6 +391,7 @@ def evalS : Nat → Prog → Store → Stmt → M Ctl
     | .pass => M.pure (.normal σ)
     | .decl x e => M.bind (evalE n P σ e) fun v => M.pure (.normal (σ.set x (some v)))
     | .assign x e => M.bind (evalE n P σ e) fun v => M.pure (.normal (σ.set x (some v)))
+    | .infer x e => M.bind (evalE n P σ e) fun v => M.pure (.normal (σ.set x (some v)))
     | .setAttr o f e =>
         M.bind (evalE n P σ e) fun v => M.bind (evalE n P σ o) fun r =>
         M.bind (putAttr r f v) fun _ => M.pure (.normal σ)
